@@ -12,7 +12,15 @@ def grammar_cpp(g, lexer='tok', ctx=None, ns='g', limits=None, lexer_type=None):
     o = ['namespace %s {' % ns]
     o.append('constexpr nterm<unsigned> %s;' % ', '.join('N_%d(%s)' % (i, cxx_str(n)) for i, n in enumerate(g.nterms)))
     for i, (n, prec, assoc) in enumerate(g.terms):
-        o.append('constexpr custom_term T_%d(%s, [](std::string_view sv){ return hv::term_value_of(%d, sv); }, %d, %s);' % (i, cxx_str(n), i, prec, ASSOC[assoc]))
+        tk = g.tkinds[i] if g.tkinds else None
+        if tk is None:
+            o.append('constexpr custom_term T_%d(%s, [](std::string_view sv){ return hv::term_value_of(%d, sv); }, %d, %s);' % (i, cxx_str(n), i, prec, ASSOC[assoc]))
+        elif tk['kind'] == 'char':
+            o.append("constexpr char_term T_%d((char)%d, %d, %s);" % (i, tk['c'], prec, ASSOC[assoc]))
+        elif tk['kind'] == 'str':
+            o.append('constexpr string_term T_%d(%s, %d, %s);' % (i, cxx_str(tk['s']), prec, ASSOC[assoc]))
+        elif tk['kind'] == 'regex':
+            o.append('constexpr char P_%d[] = R"RX(%s)RX"; constexpr regex_term<P_%d> T_%d(%s, %d, %s);' % (i, tk['pattern'], i, i, cxx_str(n), prec, ASSOC[assoc]))
     def symref(x):
         if x == 'error': return 'error'
         if x in g.tnames: return 'T_%d' % g.tnames.index(x)
@@ -26,9 +34,12 @@ def grammar_cpp(g, lexer='tok', ctx=None, ns='g', limits=None, lexer_type=None):
             ps = []; args = []
             for k, x in enumerate(r['rhs']):
                 if x == 'error': ps.append('skip'); args.append('0u'); continue
-                if x in g.tnames: ps.append('const term_value<unsigned>& a%d' % k)
-                else: ps.append('unsigned a%d' % k)
-                args.append('a%d' % k)
+                if x in g.tnames:
+                    ti = g.tnames.index(x); tk = g.tkinds[ti] if g.tkinds else None
+                    if tk is None: ps.append('const term_value<unsigned>& a%d' % k); args.append('a%d' % k)
+                    elif tk['kind'] == 'char': ps.append('const term_value<char>& a%d' % k); args.append('hv::tv(%d, a%d)' % (ti, k))
+                    else: ps.append('const term_value<std::string_view>& a%d' % k); args.append('hv::tv(%d, a%d)' % (ti, k))
+                else: ps.append('unsigned a%d' % k); args.append('a%d' % k)
             if f == 'hash':
                 rs.append('%s >= [](%s){ return hv::red(%s); }' % (head, ', '.join(ps), ', '.join([str(ri)] + args)))
             else:
@@ -39,6 +50,7 @@ def grammar_cpp(g, lexer='tok', ctx=None, ns='g', limits=None, lexer_type=None):
     lim = (', %s{}' % limits) if limits else ''
     o.append('constexpr parser p(N_%d, terms(%s), nterms(%s), rules(\n  %s\n), use_lexer<%s>{}%s);' % (
         g.nterms.index(g.root), ', '.join('T_%d' % i for i in range(g.nt)), ', '.join('N_%d' % i for i in range(len(g.nterms))), ',\n  '.join(rs), lexer_type or ('hv::tok_lexer<%d>' % g.nt), lim))
+    if g.tkinds: o[-1] = o[-1].replace('), use_lexer<hv::tok_lexer<%d>>{}' % g.nt, ')')
     o.append('}')
     return '\n'.join(o)
 
@@ -112,10 +124,10 @@ static int ref_lex(const uint8_t* in, unsigned n, unsigned pos, unsigned* term, 
 }
 """
 
-def parse_harness_c(unit_c, tables, body, extra_decl='', variant='plain'):
+def parse_harness_c(unit_c, tables, body, extra_decl='', variant='plain', lex_c=None):
     """common harness text. `body` = oracle calls (C statements using OUT and R)."""
     anslex = variant == 'anslex'
-    d = {'unit_c': unit_c, 'tables': tables, 'lex': ANS_LEX if anslex else TOK_LEX, 'extra_decl': extra_decl, 'body': body,
+    d = {'unit_c': unit_c, 'tables': tables, 'lex': ANS_LEX if anslex else (lex_c or TOK_LEX), 'extra_decl': extra_decl, 'body': body,
          'xproto': ', const uint16_t* ans_idx, const uint8_t* ans_len' if anslex else '',
          'xargs': ', ANS_IDX, ANS_LEN' if anslex else '',
          'xnondet': ('  for (int i = 0; i < LEN; i++) { ANS_IDX[i] = nondet_ushort(); ANS_LEN[i] = nondet_uchar();\n'
@@ -204,3 +216,36 @@ extern "C" void h_run_guard(const uint8_t* in, uint32_t opts, uint32_t* out) {
   try { h_run(in, opts, out); } catch (...) { exc_pending = 1; }
 }
 '''
+
+def constexpr_probe_cpp(g, inbytes, ws=0, nl=0):
+    """a TU that parses the given bytes during constant evaluation (functors are trivial constexpr lambdas): used to confirm undefined behaviour
+       found by the solver - a constant evaluator must reject an evaluation that meets UB ([expr.const])"""
+    o = ['#include <ctpg/ctpg.hpp>', 'using namespace ctpg; using namespace ctpg::buffers; using namespace ctpg::ftors;', 'namespace g {']
+    o.append('constexpr nterm<unsigned> %s;' % ', '.join('N_%d(%s)' % (i, cxx_str(n)) for i, n in enumerate(g.nterms)))
+    for i, (n, prec, assoc) in enumerate(g.terms):
+        tk = g.tkinds[i] if g.tkinds else None
+        if tk is None: o.append('constexpr custom_term T_%d(%s, [](std::string_view sv){ return (unsigned)sv.size(); }, %d, %s);' % (i, cxx_str(n), prec, ASSOC[assoc]))
+        elif tk['kind'] == 'char': o.append("constexpr char_term T_%d((char)%d, %d, %s);" % (i, tk['c'], prec, ASSOC[assoc]))
+        elif tk['kind'] == 'str': o.append('constexpr string_term T_%d(%s, %d, %s);' % (i, cxx_str(tk['s']), prec, ASSOC[assoc]))
+        else: o.append('constexpr char P_%d[] = R"RX(%s)RX"; constexpr regex_term<P_%d> T_%d(%s, %d, %s);' % (i, tk['pattern'], i, i, cxx_str(n), prec, ASSOC[assoc]))
+    def symref(x):
+        if x == 'error': return 'error'
+        if x in g.tnames: return 'T_%d' % g.tnames.index(x)
+        return 'N_%d' % g.nterms.index(x)
+    rs = []
+    for ri, r in enumerate(g.rules):
+        head = 'N_%d(%s)' % (g.nterms.index(r['lhs']), ', '.join(symref(x) for x in r['rhs']))
+        if r['prec'] != 0: head += '[%d]' % r['prec']
+        rs.append('%s >= [](%s){ return %du; }' % (head, ', '.join('skip' for _ in r['rhs']), ri))
+    lex = '' if g.tkinds else ', use_lexer<tl>{}'
+    o.insert(3, 'struct tl { template<typename It, typename ES> constexpr auto match(match_options, source_point, It start, It, ES&) { unsigned char c = (unsigned char)*start; '
+                'if (c >= \'a\' && c < \'a\' + %d) return recognized_term(size16_t(c - \'a\'), 1); return recognized_term{}; } };' % g.nt)
+    o.append('constexpr parser p(N_%d, terms(%s), nterms(%s), rules(\n  %s\n)%s);' % (g.nterms.index(g.root), ', '.join('T_%d' % i for i in range(g.nt)),
+             ', '.join('N_%d' % i for i in range(len(g.nterms))), ',\n  '.join(rs), lex))
+    o.append('}')
+    o.append('constexpr char in[] = {%s};' % ', '.join(['(char)%d' % b for b in inbytes] + ['(char)0']))
+    o.append('constexpr utils::no_stream ns{};')
+    o.append('constexpr bool run() { utils::no_stream s; auto r = g::p.parse(parse_options{}.set_skip_whitespace(%s).set_skip_newline(%s), cstring_buffer(in), s); return r.has_value(); }' % ('true' if ws else 'false', 'true' if nl else 'false'))
+    o.append('constexpr bool R = run();')
+    o.append('int main() { return R ? 0 : 1; }')
+    return '\n'.join(o) + '\n'
